@@ -302,7 +302,13 @@ func ExecuteScenario(env *Env, sc *Scenario) (out *Outcome, err error) {
 			a, b := results[0].state, results[vi].state
 			if strings.HasPrefix(sc.Variants[vi].Name, "pair:") {
 				// two variants with a history of their own: compared with each other
-				if vi+1 < len(results) && strings.HasPrefix(sc.Variants[vi+1].Name, "pair:") && strings.HasSuffix(sc.Variants[vi].Name, ":fresh-processes") {
+				group := func(k int) string {
+					if k < 0 || k >= len(sc.Variants) || !strings.HasPrefix(sc.Variants[k].Name, "pair:") {
+						return ""
+					}
+					return strings.SplitN(sc.Variants[k].Name, ":", 3)[1]
+				}
+				if group(vi+1) == group(vi) && group(vi-1) != group(vi) {
 					if f, why := diffStates(results[vi].state, results[vi+1].state); f != "" {
 						class := "generated-file-differs"
 						if f == "gengo.sum" {
